@@ -23,6 +23,28 @@
 #define ALN_WRAP_IMPORT
 #include "aln_wrap.h"
 
+#ifdef KALIGN_VERIF
+#include <stdio.h>
+#include <stdlib.h>
+#include "kalign_verif.h"
+kalign_verif_cb kalign_verif_hook = NULL;
+static void kalign_verif_dump_params(struct aln_param* ap, int biotype, int type)
+{
+        const char* fn = getenv("KALIGN_VERIF_DUMP");
+        FILE* f = NULL;
+        if(fn && (f = fopen(fn,"a"))){
+                fprintf(f,"PARAMS biotype %d type %d gpo %.9g gpe %.9g tgpe %.9g subm", biotype, type, ap->gpo, ap->gpe, ap->tgpe);
+                for(int i = 0; i < 23;i++){
+                        for(int j = 0; j < 23;j++){
+                                fprintf(f," %.9g", ap->subm[i][j]);
+                        }
+                }
+                fprintf(f,"\n");
+                fclose(f);
+        }
+}
+#endif
+
 
 int kalign(char **seq, int *len, int numseq,int n_threads, int type, float gpo, float gpe, float tgpe, char ***aligned, int *out_aln_len)
 {
@@ -106,6 +128,10 @@ int kalign_run(struct msa *msa, int n_threads, int type, float gpo, float gpe, f
                            gpe,
                            tgpe));
 
+#ifdef KALIGN_VERIF
+        kalign_verif_dump_params(ap, msa->biotype, type);
+        KALIGN_VERIF_EVENT(KV_PARAMS, ap, msa, msa->biotype, type, 0);
+#endif
 
         DECLARE_TIMER(t1);
         if(!msa->quiet){
